@@ -34,7 +34,7 @@ NLAYOUTS = 6
 
 
 def shards(tier, seed, scale):
-    per = 1300 if tier == "quick" else 11000      # per (shard, layout, function group)
+    per = 700 if tier == "quick" else 11000      # per (shard, layout, function group)
     return common.mk_shards(16, seed, tier, per, scale, salt="c46")
 
 
@@ -43,10 +43,11 @@ def shards(tier, seed, scale):
 def build_layout(root, k):
     """returns (base, interesting guest paths (posix, relative to the sandbox root), names)"""
     os.makedirs(root)
-    for d in ("cwd", "outside/dir", "etc", "sb/etc", "sb/a/b", "sb/d"):
+    for d in ("cwd", "outside/dir", "etc", "sb/etc", "sb/a/b", "sb/d", "sb/c:/a"):
         os.makedirs(os.path.join(root, d))
     files = {"outside/secret.txt": "SECRET", "outside/dir/file.txt": "SECRET2", "etc/passwd": "HOSTPW",
-             "sb/etc/passwd": "sbpw", "sb/a/b/c.txt": "c", "sb/a/f.txt": "af", "sb/f.txt": "f"}
+             "sb/etc/passwd": "sbpw", "sb/a/b/c.txt": "c", "sb/a/f.txt": "af", "sb/f.txt": "f",
+             "sb/c:/f.txt": "cf", "sb/c:/a/f.txt": "caf"}
     for p, c in files.items():
         with open(os.path.join(root, p), "w") as fd:
             fd.write(c)
@@ -68,9 +69,12 @@ def build_layout(root, k):
     elif k == 5:    # loops
         links = [("loop1", "loop2"), ("loop2", "loop1"), ("self", "self"), ("a/dloop", "../a"),
                  ("a/b/up", ".."), ("lf_abs", out_abs + "/secret.txt"), ("a/aloop", "/a/aloop")]
+    if k:
+        links.append(("c:/wl", "../../outside"))
     for name, target in links:
         os.symlink(target, os.path.join(sb, name))
-    interesting = ["etc/passwd", "a/b/c.txt", "a/f.txt", "f.txt", "a", "a/b", "d", "etc", ""]
+    interesting = ["etc/passwd", "a/b/c.txt", "a/f.txt", "f.txt", "a", "a/b", "d", "etc", "",
+                   "c:/f.txt", "c:/a/f.txt", "c:/a"]
     for name, target in links:
         interesting.append(name)
         for tail in ("secret.txt", "dir/file.txt", "f.txt", "b/c.txt", "etc/passwd", "outside/secret.txt",
@@ -83,9 +87,59 @@ def build_layout(root, k):
 
 # ------------------------------------------------------------------ guest path grammar
 
-def gen_components(rng, interesting, names):
+_LISTDIR = {}
+
+
+def _listdir(d):
+    if d not in _LISTDIR:
+        try:
+            _LISTDIR[d] = sorted(os.listdir(d))
+        except OSError:
+            _LISTDIR[d] = []
+    return _LISTDIR[d]
+
+
+def gen_walk(rng, base):
+    """components chosen while physically walking the tree from the sandbox root, so that most
+    paths are alive for the kernel (links are followed, '..' is physical)"""
+    root = os.path.dirname(base)
+    cur = base
+    comps = []
+    for _ in range(rng.randint(1, 8)):
+        x = rng.random()
+        entries = _listdir(cur) if os.path.isdir(cur) else []
+        if x < 0.70 and entries:
+            c = rng.choice(entries)
+        elif x < 0.88:
+            c = ".."
+        elif x < 0.93:
+            c = rng.choice([".", ""])
+        else:
+            c = "nonexist"
+        comps.append(c)
+        if c in (".", ""):
+            continue
+        if c == "..":
+            if cur != root:
+                cur = os.path.dirname(cur)
+            continue
+        nxt = os.path.join(cur, c)
+        if os.path.islink(nxt):
+            nxt = os.path.realpath(nxt)
+        if os.path.isdir(nxt) and (nxt == root or nxt.startswith(root + os.sep)):
+            cur = nxt
+        else:
+            # a file, a missing name, a loop or a directory of the host outside the scratch tree
+            if rng.random() < 0.85:
+                break
+    return comps
+
+
+def gen_components(rng, interesting, names, base=None):
     r = rng.random()
-    if r < 0.55:
+    if base is not None and r < 0.45:
+        return gen_walk(rng, base)
+    if r < 0.80:
         comps = rng.choice(interesting).split("/")
         comps = [c for c in comps if c]
         # mutate
@@ -109,15 +163,15 @@ def gen_components(rng, interesting, names):
     return comps
 
 
-def gen_posix(rng, interesting, names):
-    comps = gen_components(rng, interesting, names)
+def gen_posix(rng, interesting, names, base=None):
+    comps = gen_components(rng, interesting, names, base)
     lead = rng.choice(["", "/", "/", "/", "//", "///", "./", "../"])
     trail = rng.choice(["", "", "", "/", "/."])
     return lead + "/".join(comps) + trail, comps
 
 
-def gen_windows(rng, interesting, names):
-    comps = gen_components(rng, interesting, names)
+def gen_windows(rng, interesting, names, base=None):
+    comps = gen_components(rng, interesting, names, base)
     seps = ["\\", "\\", "\\", "\\", "/", "\\\\"]
     lead = rng.choice(["", "c:\\", "C:\\", "\\", "\\\\", "..\\", "c:", "\\\\?\\c:\\", "/", "c:/"])
     s = lead
@@ -134,6 +188,16 @@ def gen_windows(rng, interesting, names):
 # ------------------------------------------------------------------ oracle
 
 class Oracle(object):
+    """Kernel-like path walk on the real tree.  `walk` returns (status, real, why):
+    status 'inside' / 'outside' / 'dead' (a directory component is missing, is not a directory,
+    or the links loop: the kernel would refuse the path, it leads nowhere)."""
+
+    T = "result is not below the base even textually"
+    D = "'..' components of the result climb above the base"
+    DL = "'..' after a symbolic link inside the sandbox climbs above the base"
+    SD = "a directory component of the result is a symbolic link leading outside"
+    SF = "the final component of the result is a symbolic link leading outside"
+
     def __init__(self, base):
         self.base = base
         self.base_real = os.path.realpath(base)
@@ -141,53 +205,62 @@ class Oracle(object):
     def inside(self, real):
         return real == self.base_real or real.startswith(self.base_real + os.sep)
 
-    def contained(self, host, follow=True):
-        """(ok, real path)"""
-        real = os.path.realpath(host)
-        if self.inside(real):
-            return True, real
-        if not follow:
-            # the final component is not followed: the name itself must live inside
-            h = host.rstrip(os.sep) or os.sep
-            parent = os.path.realpath(os.path.dirname(h))
-            real2 = os.path.join(parent, os.path.basename(h))
-            if self.inside(real2):
-                return True, real2
-        return False, real
+    def textual(self, host, prefixes=()):
+        for t in [os.path.abspath(self.base)] + list(prefixes):
+            if host == t or host.startswith(t + os.sep):
+                return True
+        return False
 
-    def classify(self, host, prefixes=None):
-        """why does `host` (absolute, '..' kept) lead outside:
-        textual / dotdot / symlink (directory component | final component)"""
-        base = os.path.abspath(self.base)
-        rel = None
-        for t in [base] + list(prefixes or []):
-            if host == t:
-                rel = ""
-            elif host.startswith(t + os.sep):
-                rel = host[len(t) + 1:]
-            if rel is not None:
-                break
-        if rel is None or not os.path.isabs(host):
-            return "result is not below the base even textually"
-        stack = []
-        for c in rel.split(os.sep):
-            if c in ("", "."):
-                continue
+    def walk(self, host, follow=True, prefixes=()):
+        assert os.path.isabs(host)
+        comps = [c for c in host.split(os.sep) if c not in ("", ".")]
+        todo = [(c, i) for i, c in enumerate(comps)]
+        nlast = len(comps) - 1
+        cur = os.sep
+        nlinks = 0
+        link_seen = False
+        why = None
+        while todo:
+            c, origin = todo.pop(0)
+            last = not todo
+            was_inside = self.inside(cur)
+            via_link = None
             if c == "..":
-                if not stack:
-                    return "'..' components of the result climb above the base"
-                stack.pop()
+                cur = os.path.dirname(cur)
             else:
-                stack.append(c)
-        # lexically inside, really outside: a symbolic link on the way
-        cur = base
-        for i, c in enumerate(stack):
-            cur = os.path.join(cur, c)
-            if os.path.islink(cur):
-                if i + 1 < len(stack):
-                    return "a directory component of the result is a symbolic link leading outside"
-                return "the final component of the result is a symbolic link leading outside"
-        return "real path outside for an unknown reason"
+                nxt = os.path.join(cur, c)
+                if os.path.islink(nxt) and (not last or follow):
+                    nlinks += 1
+                    if nlinks > 40:
+                        return "dead", cur, "ELOOP"
+                    target = os.readlink(nxt)
+                    if target.startswith(os.sep):
+                        cur = os.sep
+                    todo = [(x, ("L", origin if not isinstance(origin, tuple) else origin[1]))
+                            for x in target.split(os.sep) if x not in ("", ".")] + todo
+                    if was_inside:
+                        link_seen = True
+                    if not (was_inside and not self.inside(cur)):
+                        continue
+                    via_link = origin if not isinstance(origin, tuple) else origin[1]
+                elif last:
+                    cur = nxt           # may not exist: that is where it would be created
+                elif os.path.isdir(nxt):
+                    cur = nxt
+                else:
+                    return "dead", nxt, "ENOENT/ENOTDIR"
+            if was_inside and not self.inside(cur):
+                if isinstance(origin, tuple):
+                    via_link = origin[1]
+                if via_link is not None:
+                    why = self.SF if via_link == nlast else self.SD
+                else:
+                    why = self.DL if link_seen else self.D
+        if self.inside(cur):
+            return "inside", cur, None
+        if not self.textual(host, prefixes):
+            why = self.T
+        return "outside", cur, why or "real path outside for an unknown reason"
 
 
 def to_text(x):
@@ -203,6 +276,8 @@ PASSTHROUGH_GUESTS = ["/dev/urandom", "/dev/../dev/urandom", "//dev/urandom", "/
 
 def run_shard(params, rec):
     common.quiet()
+    import sys
+    sys.setrecursionlimit(250)      # link loops end in RecursionError: keep them cheap
     import miasm.os_dep.common as osc
     from miasm.os_dep.linux.environment import FileSystem
     rng = common.rng_for(params)
@@ -242,7 +317,7 @@ def run_shard(params, rec):
                 comps = [c for c in guest.split("/")]
                 fs, fsname = fs_pass, "passthrough"
             else:
-                guest, comps = gen_posix(rng, interesting, names)
+                guest, comps = gen_posix(rng, interesting, names, base)
                 fs, fsname = (fs_plain, "plain") if which < 0.8 else (
                     (fs_pass, "passthrough") if which < 0.9 else (fs_rel, "relbase"))
             as_bytes = rng.random() < 0.35
@@ -279,36 +354,37 @@ def run_shard(params, rec):
                 if host == os.path.normpath(guest):
                     rec.count("resolve_path:passthrough_returned_as_is")
                 continue
-            ok, real = orc.contained(host, follow)
-            if ok:
+            host_abs = host if os.path.isabs(host) else os.path.join(os.getcwd(), host)
+            status, real, why = orc.walk(host_abs, follow)
+            if follow and status != "dead" and os.path.exists(host_abs):
+                # harness sanity: the walk and the C library agree where an existing path leads
+                assert os.path.realpath(host_abs) == real, (host_abs, real)
+            if status == "dead":
+                rec.count("resolve_path:dead_path(kernel would refuse)")
+                continue
+            if status == "inside":
                 rec.count("resolve_path:inside")
                 if os.path.lexists(host):
                     rec.count("resolve_path:inside_and_exists")
-                if os.path.realpath(host) != os.path.normpath(host):
+                if real != os.path.normpath(host_abs):
                     rec.count("resolve_path:inside_through_link")
                 if rec.evaluations % 997 == 0:
                     rec.sample(dict(fn=fn, layout=k, guest=guest, host=host.replace(top, "<top>"),
                                     real=real.replace(top, "<top>")))
                 continue
             # ---- escape: classify the mechanism
-            why = orc.classify(host)
             gnorm = os.path.normpath(guest)
+            lead = gnorm == ".." or gnorm.startswith("../")
             final_link = os.path.islink(os.path.join(base, gnorm.lstrip("/")))
-            if not follow and final_link and why.startswith("result is not below"):
+            if not follow and final_link and why == orc.T:
                 key = ("resolve_path(follow_link=False): a final symbolic link yields its guest target, "
                        "not a host path in the sandbox")
-            elif why.startswith("'..'"):
-                if gnorm == ".." or gnorm.startswith("../"):
-                    key = "resolve_path: leading '..' of a relative guest path survives normpath"
-                else:
-                    key = "resolve_path: '..' climbs above the base although the guest path does not start with it"
-            elif why.startswith("result is not below"):
-                key = "resolve_path: " + why
+            elif why in (orc.D, orc.DL) and lead:
+                key = "resolve_path: leading '..' of a relative guest path survives normpath"
+            elif why in (orc.D, orc.DL) and follow and final_link:
+                key = "resolve_path: relative target of a final symbolic link climbs above the base"
             else:
                 key = "resolve_path: " + why
-            if follow and final_link and not (gnorm == ".." or gnorm.startswith("../")) and \
-                    why.startswith("'..'"):
-                key = "resolve_path: relative target of a final symbolic link climbs above the base"
             rec.count("resolve_path:escape")
             rec.fail(key, "guest %r -> host %r -> real %r (base %r)" % (guest, host, real, orc.base_real),
                      dict(layout=k, guest=guest, bytes=as_bytes, follow_link=follow, fs=fsname,
@@ -322,7 +398,7 @@ def run_shard(params, rec):
             for fnname, gen, func in (("unix_to_sbpath", gen_posix, osc.unix_to_sbpath),
                                       ("windows_to_sbpath", gen_windows, osc.windows_to_sbpath)):
                 for i in range(n // 4):
-                    guest, comps = gen(rng, interesting, names)
+                    guest, comps = gen(rng, interesting, names, base)
                     rec.ev()
                     rec.count("fn:" + fnname)
                     if nontrivial(comps):
@@ -335,8 +411,14 @@ def run_shard(params, rec):
                         continue
                     # keep the '..' components: join by hand instead of abspath
                     host_abs = host if os.path.isabs(host) else os.path.join(os.getcwd(), host)
-                    ok, real = orc.contained(host_abs, True)
-                    if ok:
+                    status, real, why = orc.walk(
+                        host_abs, True, [os.path.join(os.getcwd(), os.path.relpath(base))])
+                    if status != "dead" and os.path.exists(host_abs):
+                        assert os.path.realpath(host_abs) == real, (host_abs, real)
+                    if status == "dead":
+                        rec.count(fnname + ":dead_path(kernel would refuse)")
+                        continue
+                    if status == "inside":
                         rec.count(fnname + ":inside")
                         if os.path.lexists(host_abs):
                             rec.count(fnname + ":inside_and_exists")
@@ -344,7 +426,6 @@ def run_shard(params, rec):
                             rec.sample(dict(fn=fnname, layout=k, guest=guest,
                                             host=host_abs.replace(top, "<top>")))
                         continue
-                    why = orc.classify(host_abs, [os.path.join(os.getcwd(), os.path.relpath(base))])
                     rec.count(fnname + ":escape")
                     rec.fail("%s: %s" % (fnname, why),
                              "guest %r -> host %r -> real %r" % (guest, host, real),
@@ -357,13 +438,13 @@ def run_shard(params, rec):
 
 def floors(tier, counters, evaluations):
     miss = []
-    need = {"fn:resolve_path": 60000, "fn:unix_to_sbpath": 30000, "fn:windows_to_sbpath": 30000,
-            "resolve_path:bytes": 15000, "resolve_path:str": 15000,
-            "resolve_path:follow_link=False": 8000, "resolve_path:inside": 20000,
+    need = {"fn:resolve_path": 40000, "fn:unix_to_sbpath": 20000, "fn:windows_to_sbpath": 20000,
+            "resolve_path:bytes": 10000, "resolve_path:str": 10000,
+            "resolve_path:follow_link=False": 6000, "resolve_path:inside": 15000,
             "resolve_path:inside_and_exists": 5000, "resolve_path:inside_through_link": 200,
             "resolve_path:passthrough_matched": 1000, "resolve_path:passthrough_returned_as_is": 1000,
             "resolve_path:fs=relbase": 3000,
-            "unix_to_sbpath:inside": 5000, "windows_to_sbpath:inside": 5000,
+            "unix_to_sbpath:inside": 3000, "windows_to_sbpath:inside": 3000,
             "unix_to_sbpath:inside_and_exists": 1000, "windows_to_sbpath:inside_and_exists": 1000}
     for k in range(NLAYOUTS):
         need["layout:%d" % k] = 16
